@@ -34,10 +34,10 @@ FUNCTIONS = ["ConsoleApplication.run", "HelpResolver.resolve/create_resolved_com
 PART = {}
 LINES = ["greet bob", "greet", "num 5", "num abc", "num 1 2", "help", "help greet", "greet --help", "help num abc", "--version", "greet --zz", "nope",
          "greet bob --ansi", "help greet --ansi", "loose 1 2 3", "help loose", "-q greet bob", "num 7 -vvv",
-         "remote -h", "help remote", "remote add o extra", "fail -vvv --ansi", "fail -vvv --no-ansi"]
+         "remote -h", "help remote", "remote add o extra", "fail -vvv --ansi", "fail -vvv --no-ansi", "count", "greet --tag a -tb", "greet al --tag c"]
 # quick: second and third run from this sub-menu (every kind of line once)
-SHORT = [0, 3, 4, 6, 7, 8, 10, 13, 14, 18, 20, 21, 22]
-BOUNDS = {"quick": "3 runs on one application, first line from a 23-line menu, the others from a 13-line sub-menu (quick) / the full menu (thorough); 4 table style kinds x 5 customisations x creation orders; double rendering of tables, help pages and error traces",
+SHORT = [0, 3, 4, 6, 7, 8, 10, 13, 14, 18, 20, 21, 22, 23, 24, 25]
+BOUNDS = {"quick": "3 runs on one application, first line from a 26-line menu, the others from a 16-line sub-menu (quick) / the full menu (thorough); 4 table style kinds x 5 customisations x creation orders; double rendering of tables, help pages and error traces",
           "thorough": "additionally 4 runs whose first line is an invalid value / failing help / unknown option / --ansi help"}
 OUTSIDE = ["sequences of 5-6 runs", "re-using one RawArgs OBJECT for two runs (each run gets a fresh StringArgs/ArgvArgs of its line): HelpResolver.resolve removes the leading 'help' token from the raw args it is given - observed, but the statement quantifies over command lines",
            "process-wide state outside clikit (pastel, crashtest)"]
@@ -57,6 +57,19 @@ def _handler(tag):
     return cb
 
 
+class Counter(object):
+    """A handler with state of its own."""
+
+    def __init__(self):
+        self.n = 0
+
+    def handle(self, args, io, command):
+        self.n += 1
+        CALLS.append(("count", self.n, {}))
+        io.write_line("handled %d time(s)" % self.n)
+        return 0 if self.n == 1 else 3
+
+
 def _failing(args, io):
     raise ValueError("handler failed")
 
@@ -69,7 +82,10 @@ def build():
     g.set_description("Greets")
     g.add_argument("info", Argument.OPTIONAL, "An argument named like a style tag")
     g.add_option("yell", "y", Option.NO_VALUE, "Yell")
+    g.add_option("tag", "t", Option.MULTI_VALUED, "Tags")
     g.set_handler(CallbackHandler(_handler("greet")))
+    c = cfg.create_command("count")                       # the handler is given as a factory (a class): every run gets a handler of its own
+    c.set_handler(Counter)
     n = cfg.create_command("num")
     n.add_argument("n", Argument.REQUIRED | Argument.INTEGER, "A number")
     n.set_handler(CallbackHandler(_handler("num")))
